@@ -35,6 +35,8 @@ type Engine struct {
 	mu               sync.Mutex
 	strs             map[string]string
 	addrCache        map[types.Object]bool
+	zgMu             sync.Mutex
+	zgCache          map[*types.Var]bool
 	addrDone         map[*ast.FuncDecl]bool
 	verbose          bool
 	overlay          map[string][]byte
@@ -195,6 +197,13 @@ func (e *Engine) globalVals(fx *FuncCtx, key string, vr *types.Var) (Val, bool) 
 	if v, ok := fx.globals[key]; ok {
 		return v, true
 	}
+	if e.zeroGlobal(vr) {
+		// unexported, declared without initializer, never assigned and never address-taken in its
+		// package: it holds the zero value for ever (quat's `zero`)
+		v := fx.zeroVal(vr.Type())
+		fx.globals[key] = v
+		return v, true
+	}
 	n0 := len(fx.decls)
 	v, facts := fx.freshVal(key, vr.Type())
 	// declarations of package-level values are permanent (not rolled back by Houdini snapshots)
@@ -210,6 +219,99 @@ func (e *Engine) globalVals(fx *FuncCtx, key string, vr *types.Var) (Val, bool) 
 		fx.globalFacts = append(fx.globalFacts, Not(Eq(iv.T, Term{"nilIface", SIfc})))
 	}
 	return v, true
+}
+
+// zeroGlobal: vr is an unexported package-level variable of a loaded package, declared without an
+// initializer, of a plain value type, that no file of the package assigns or takes the address of.
+func (e *Engine) zeroGlobal(vr *types.Var) bool {
+	if vr.Exported() || vr.Pkg() == nil {
+		return false
+	}
+	switch vr.Type().Underlying().(type) {
+	case *types.Basic, *types.Struct:
+	default:
+		return false
+	}
+	pi := e.pkgs[vr.Pkg().Path()]
+	if pi == nil {
+		return false
+	}
+	e.zgMu.Lock()
+	defer e.zgMu.Unlock()
+	if e.zgCache == nil {
+		e.zgCache = map[*types.Var]bool{}
+	}
+	if r, ok := e.zgCache[vr]; ok {
+		return r
+	}
+	info := pi.pkg.TypesInfo
+	declaredPlain, touched := false, false
+	isVr := func(x ast.Expr) bool {
+		for {
+			switch y := x.(type) {
+			case *ast.ParenExpr:
+				x = y.X
+				continue
+			case *ast.SelectorExpr: // zero.Real = ...
+				x = y.X
+				continue
+			case *ast.IndexExpr:
+				x = y.X
+				continue
+			}
+			break
+		}
+		id, ok := x.(*ast.Ident)
+		return ok && info.ObjectOf(id) == vr
+	}
+	for _, f := range pi.pkg.Syntax {
+		ast.Inspect(f, func(n ast.Node) bool {
+			switch x := n.(type) {
+			case *ast.ValueSpec:
+				for i, nm := range x.Names {
+					if info.Defs[nm] == vr {
+						if len(x.Values) == 0 {
+							declaredPlain = true
+						}
+						_ = i
+					}
+				}
+			case *ast.AssignStmt:
+				for _, l := range x.Lhs {
+					if isVr(l) {
+						touched = true
+					}
+				}
+			case *ast.IncDecStmt:
+				if isVr(x.X) {
+					touched = true
+				}
+			case *ast.RangeStmt:
+				if (x.Key != nil && isVr(x.Key)) || (x.Value != nil && isVr(x.Value)) {
+					touched = true
+				}
+			case *ast.UnaryExpr:
+				if x.Op == token.AND && isVr(x.X) {
+					touched = true
+				}
+			case *ast.CallExpr:
+				// method call with pointer receiver on the variable: zero.Set(...)
+				if sel, ok := x.Fun.(*ast.SelectorExpr); ok && isVr(sel.X) {
+					if s, ok := info.Selections[sel]; ok && s.Kind() == types.MethodVal {
+						if sig, ok := s.Obj().Type().(*types.Signature); ok && sig.Recv() != nil {
+							if _, ptr := sig.Recv().Type().(*types.Pointer); ptr {
+								touched = true
+							}
+						}
+					}
+				}
+			}
+			return true
+		})
+	}
+	r := declaredPlain && !touched
+	e.zgCache[vr] = r
+	return r
 }
 
 func (e *Engine) importedPkg(fx *FuncCtx, env *specEnv, name string) *types.Package {
